@@ -10,7 +10,7 @@ CONSTANTS
   FileLayer = FALSE
   SilentRelease = FALSE
   ForgetsHandle = FALSE
-  MaxMigrate = 1
+  MaxMigrate = 0
   RegisterOnce = FALSE
   MaxLen = 8
 SPECIFICATION GSpec
